@@ -6,9 +6,9 @@
      ReaderSkipDecoder  io.ReadFull-style loop into a grown private buffer over an io.Reader [rf_..]
    with each decoder's Next(t) (returns the bytes of the value, resets the state it resets).
 
-   SkipN(n int) is only ever called with n >= 0 here: sizes are typeToSize entries (> 0),
-   int(uint32) (>= 0 on 64-bit; the STRING "sz < 0" test is dead, kept as written), or a
-   non-negative int32 times a positive width.  The bytes SkipN returns are inspected by the
+   SkipN(n int) is only ever called with n >= 0 here: sizes are typeToSize entries (> 0), a
+   non-negative int32 (STRING length: int(int32(uint32)), tested "sz < 0"), or a non-negative
+   int32 times a positive width.  The bytes SkipN returns are inspected by the
    template (b[0], b[1], BigEndian.Uint32(b[..])): an instance returning too few bytes makes
    the template panic, as in Go. *)
 From GV Require Import Lib.Bytes Lib.Res Gen.Consts Model.Binary Model.BufReader Model.Skip.
@@ -48,8 +48,9 @@ Section Template.
       else if is_ty t thrift_STRING then
         sbind (skipN s 4) (fun s1 b =>
         sbind (sret s1 (be_u32 b)) (fun s1 u =>
-        if (Z.of_N u <? 0)%Z then (s1, Err e_neg_size)            (* dead: int(uint32) >= 0 *)
-        else sbind (skipN s1 u) (fun s2 _ => (s2, Ok tt))))
+        let sz := i32 u in                                   (* sz := int(int32(binary.BigEndian.Uint32(b))) *)
+        if (sz <? 0)%Z then (s1, Err e_neg_size)
+        else sbind (skipN s1 (Z.to_N sz)) (fun s2 _ => (s2, Ok tt))))
       else if is_ty t thrift_STRUCT then
         t_struct_loop (fun s' tp => tskip d' fu s' tp) fu s
       else if is_ty t thrift_MAP then
